@@ -238,10 +238,11 @@ func Families(tier string) []*core.Family {
 		mk(famPairs, uint64(len(interfererPool()))*nObs),
 	}
 	if tier == "thorough" {
-		fams = append(fams,
-			mk(famTripBlock, nPairs(uint64(len(Interferers)))*nObs),
-			mk(famTripStmt, nPairs(uint64(len(coreInterferers())))*nObs),
-		)
+		tb := mk(famTripBlock, nPairs(uint64(len(Interferers)))*nObs)
+		ts := mk(famTripStmt, nPairs(uint64(len(coreInterferers())))*nObs)
+		// never fail on time: a loaded machine makes the run non exhaustive
+		tb.BudgetSeconds, ts.BudgetSeconds = 420, 420
+		fams = append(fams, tb, ts)
 	}
 	return fams
 }
